@@ -397,4 +397,52 @@ def c01_g(ctx: Ctx):
     return res
 
 
-RULES = [c01_a, c01_b, c01_c, c01_d, c01_e, c01_f, c01_g]
+@rule("C01-h")
+def c01_h(ctx: Ctx):
+    """Assigning a state point to a fresh handle takes the new value exactly: reset() runs on a collection that was created empty, never on one
+    the lazy getter has just filled (the collection's in-place update skips entries that compare equal: 1 == 1.0 == True)."""
+    R = "C01-h"
+    f = ctx.fn("signac.job:Job.statepoint.setter")
+    cfg = ctx.cfg(f)
+    out = []
+    resets = [c for c in body_nodes(f) if isinstance(c, ast.Call) and isinstance(c.func, ast.Attribute) and c.func.attr == "reset"]
+    if not resets:
+        return [ctx.inc(R, f, f.node, "the state point setter does not call reset()")]
+    getter = ctx.prog.funcs.get("signac.job:Job.statepoint")
+    lazy_fills = getter is not None and any(isinstance(c, ast.Call) and isinstance(c.func, ast.Attribute) and c.func.attr == "load" for c in body_nodes(getter)) \
+        or (getter is not None and any(isinstance(c, ast.Call) and kwarg(c, "data") is not None and (dotted(c.func) or "").endswith("_StatePointDict") for c in body_nodes(getter)))
+    flag = "self._statepoint_requires_init"
+    for c in resets:
+        recv = canon(c.func.value)
+        k = f.qual + "|reset-on-empty"
+        if recv not in ("self.statepoint", "self._statepoint", "self.sp"):
+            out.append(ctx.inc(R, f, c, f"reset() is called on {recv}", construct=k))
+            continue
+        bad = None
+        for nid in ctx.node_ids(f, c):
+            paths, trunc = cfg.paths_to(nid, kinds="n")
+            if trunc:
+                out.append(ctx.inc(R, f, c, "path enumeration truncated", construct=k))
+                continue
+            for path, facts in paths:
+                fresh = False
+                for i in path:
+                    a = cfg.nodes[i].ast
+                    if isinstance(a, ast.Assign) and any(canon(t) == "self._statepoint" for t in a.targets) and isinstance(a.value, ast.Call) \
+                            and (dotted(a.value.func) or "").endswith("_StatePointDict") and (kwarg(a.value, "data") is None or ctx.fold(kwarg(a.value, "data"), f) is None):
+                        fresh = True
+                if fresh or (flag, False) in facts:
+                    continue
+                bad = path
+        if bad is not None and recv in ("self.statepoint", "self.sp") and lazy_fills:
+            out.append(ctx.viol(R, f, c, "the setter can reach reset() on a handle whose state point collection has not been created yet: `self.statepoint` then runs the lazy getter, which "
+                                "fills the collection with the old state point, and the in-place update of reset() skips every entry that compares equal - assigning {'a': 1.0} (or True) to a "
+                                "job {'a': 1} keeps the old value, id and directory", witness=cfg.describe_path(bad), construct=k))
+        elif bad is not None:
+            out.append(ctx.inc(R, f, c, "a path reaches reset() without creating the collection; receiver does not go through the lazy getter", construct=k))
+        else:
+            out.append(ctx.ok(R, f, c, "on every path to reset() the collection was created empty by the setter itself or already existed", construct=k))
+    return out
+
+
+RULES = [c01_a, c01_b, c01_c, c01_d, c01_e, c01_f, c01_g, c01_h]
